@@ -267,4 +267,17 @@ CHECKS = {
             R("TestC19PrincipalsAllTypes", 5000, 50000, ts=4),
         ],
     },
+    "C20": {
+        "pkg": "c20", "level": "exploration", "race": True,
+        "manifest": {
+            "text": "harness-owned schedules over a real server: the executor advances only on observed states (waiter count of the code's condition variable, response read), so the ordering of registration and requests is controlled, not timed; every message code 0..255 is exercised once with a non-matching and a matching request; binary built with the race detector",
+            "note": "registration/broadcast atomicity inside sync.Cond is trusted; the waiter count is read with reflect from the unexported table (if its shape changes the check reports nothing); a 15 s watchdog only separates 'released but never returned' (violation) from progress",
+            "technique": "schedule-controlled property-based testing (rapid) + enumeration of all codes + race detector; oracle = waiter-set model",
+        },
+        "assumptions": ["sync.Cond internals (notify list counters) as in go1.23", "each request frame used for a code is answered exactly once (C12)"],
+        "subchecks": [
+            E("TestC20AllCodes", quick={"shards": 1, "timeout": 300}, thorough={"shards": 1, "timeout": 600}),
+            R("TestC20Wait", 200, 2000, qs=2, quick_extra={"timeout": 300}),
+        ],
+    },
 }
